@@ -10,7 +10,7 @@ use rustc_ast::{ast, ptr};
 use rustc_span::{BytePos, DUMMY_SP, Ident, Span, symbol};
 use tracing::debug;
 
-use crate::attr::filter_inline_attrs;
+use crate::attr::{filter_inline_attrs, get_attrs_from_stmt};
 use crate::comment::{
     FindUncommented, combine_strs_with_missing_comments, contains_comment, is_last_comment_block,
     recover_comment_removed, recover_missing_comment_in_span, rewrite_missing_comment,
@@ -499,8 +499,13 @@ impl<'a> FmtVisitor<'a> {
             return None;
         }
 
-        let res = Stmt::from_ast_node(block.stmts.first()?, true)
-            .rewrite(&self.get_context(), self.shape())?;
+        let stmt = block.stmts.first()?;
+        // A skipped statement is copied as it is written by `visit_stmt`, not rewritten here.
+        if contains_skip(get_attrs_from_stmt(stmt)) {
+            return None;
+        }
+
+        let res = Stmt::from_ast_node(stmt, true).rewrite(&self.get_context(), self.shape())?;
 
         let width = self.block_indent.width() + fn_str.len() + res.len() + 5;
         if !res.contains('\n') && width <= self.config.max_width() {
